@@ -363,28 +363,36 @@ class Summariser(object):
         return r
 
     def split(self, p, e):
-        """[(path, expr)] with every unconditionally evaluated IfExp of `e` resolved by forking."""
-        changes = self.safe and self.may_change_heap(e)
-        e = _IntBool(self.bool_calls).visit(self.sub(p, e))
-        if changes:
-            self.bump(p)        # temporaries were read before the evaluation changed anything
+        """[(path, expr)] with every unconditionally evaluated conditional of `e` resolved by forking.  Conditionals are
+        resolved on the expression as written, temporaries are substituted afterwards - so that whether a path's
+        evaluation can change the heap is judged on what that path really evaluates."""
+        e = _IntBool(self.bool_calls).visit(copy.deepcopy(e))
         out = []
         work = [(p, e)]
         while work:
             q, x = work.pop()
             ie = _first_ifexp(x, self.bool_calls)
             if ie is None:
-                out.append((q, x))
+                changes = self.safe and self.may_change_heap(x)
+                r = self.sub(q, x)
+                if changes:
+                    self.bump(q)        # temporaries were read before the evaluation changed anything
+                    self.forget_mutated(q, x, resolved=True)
+                out.append((q, r))
                 continue
             is_conv = isinstance(ie, ast.Call)
             is_tab = isinstance(ie, ast.Subscript)
             test = ie.args[0] if is_conv else (ie.slice if is_tab else ie.test)
+            impure = self.impure_atoms(test, q) if self.safe else ()
+            stest = self.sub(q, test)
             for truth in (True, False):
-                for case in dnf(test, truth):
+                for case in dnf(stest, truth):
                     q2 = q.fork()
                     q2.conds.extend(case)
                     if not consistent(q2.conds):
                         continue
+                    if impure and any(a in impure for a, _ in case):
+                        self.bump(q2)
                     x2 = copy.deepcopy(x)
                     # locate the same conditional in the copy by position
                     ie2 = _first_ifexp(x2, self.bool_calls)
@@ -454,7 +462,9 @@ class Summariser(object):
             # the container is no longer what it was bound to
             b = target.value
             if isinstance(b, ast.Name):
-                p.env.pop(b.id, None)
+                v = p.env.pop(b.id, None)
+                if self.safe and v is not None:
+                    p.frozen[b.id] = v
             elif isinstance(b, ast.Attribute):
                 p.env.pop(src(b), None)
         elif isinstance(target, ast.Starred):
@@ -512,8 +522,9 @@ class Summariser(object):
                 return True
         return False
 
-    def impure_atoms(self, test):
-        """Atoms of a (substituted) test whose evaluation may change the heap."""
+    def impure_atoms(self, test, p):
+        """Atoms (after substitution) of the operands of `test` whose own evaluation may change the heap - judged on
+        the operand as written: a temporary standing for a call does not call again."""
         out = set()
 
         def rec(e):
@@ -535,7 +546,7 @@ class Summariser(object):
                 rec(e.orelse)
                 return
             if self.may_change_heap(e):
-                out.add(atom(e)[0])
+                out.add(atom(subst(e, p.env))[0])
         rec(test)
         return out
 
@@ -549,9 +560,12 @@ class Summariser(object):
                 p.frozen[nm] = v        # becomes a let effect if (and where) it is used again
                 del p.env[nm]
 
-    def forget_mutated(self, p, node):
+    def forget_mutated(self, p, node, resolved=False):
         """Locals bound to a container that `node` may mutate (method call on it, passed to a call, item store)
-        stop standing for their defining expression."""
+        stop standing for their defining expression.  In safe mode this is done per path on the expression that path
+        really evaluates (split), and the binding is frozen (declared by a let when read again), not dropped."""
+        if self.safe and not resolved:
+            return
         from .cfg import NONMUTATING_METHODS, PURE_CALLS
         for x in ast.walk(node):
             if isinstance(x, ast.Call):
@@ -573,8 +587,12 @@ class Summariser(object):
                     v = p.env.get(nm)
                     if v is not None and not isinstance(v, (ast.Constant, ast.Name, ast.Attribute)):
                         p.env.pop(nm, None)
+                        if self.safe:
+                            p.frozen[nm] = v
             elif isinstance(x, ast.Subscript) and isinstance(x.ctx, (ast.Store, ast.Del)) and isinstance(x.value, ast.Name):
-                p.env.pop(x.value.id, None)
+                v = p.env.pop(x.value.id, None)
+                if self.safe and v is not None:
+                    p.frozen[x.value.id] = v
 
     def stmt(self, st, p):
         if not isinstance(st, (ast.If, ast.For, ast.While, ast.Try, ast.With, ast.FunctionDef, ast.ClassDef, ast.AsyncFunctionDef)):
@@ -651,8 +669,8 @@ class Summariser(object):
             return []
         if isinstance(st, ast.If):
             out = []
+            impure = self.impure_atoms(st.test, p) if self.safe else ()
             test = self.sub(p, st.test)
-            impure = self.impure_atoms(test) if self.safe else ()
             self.note_calls(p, test)
             for truth, body in ((True, st.body), (False, st.orelse)):
                 for case in dnf(test, truth):
@@ -949,6 +967,9 @@ def simplify(e):
     class S(ast.NodeTransformer):
         def visit_BinOp(self, n):
             self.generic_visit(n)
+            if isinstance(n.op, ast.Add) and isinstance(n.left, ast.Constant) and isinstance(n.right, ast.Constant) \
+                    and isinstance(n.left.value, str) and isinstance(n.right.value, str):
+                return ast.copy_location(ast.Constant(value=n.left.value + n.right.value), n)
             if isinstance(n.op, (ast.Add, ast.Sub)) and isinstance(n.right, ast.Constant) and n.right.value == 0 and not isinstance(n.right.value, bool):
                 return n.left
             if isinstance(n.op, ast.Add) and isinstance(n.left, ast.Constant) and n.left.value == 0 and not isinstance(n.left.value, bool):
